@@ -101,8 +101,8 @@ def make_variant(rng, base_text, index):
     if index == 0:
         return base_text, {"variant": "base"}
     head, blocks, tail = split_decls(base_text)
-    classes = [b for b in blocks if b.startswith("- decl: class")]
-    funcs = [b for b in blocks if not b.startswith("- decl: class")]
+    classes = [b for b in blocks if b.startswith(("- decl: class", "- decl: template"))]
+    funcs = [b for b in blocks if not b.startswith(("- decl: class", "- decl: template"))]
     extras = rng.sample(EXTRA_DECLS, rng.randint(0, len(EXTRA_DECLS)))
     extra_classes = [e for e in extras if e.startswith("- decl: class")]
     extra_funcs = [e for e in extras if not e.startswith("- decl: class")]
@@ -409,9 +409,16 @@ def judge(driver, ops, exps, out, err, returncode, known=None):
             return vs, "driver does not know op %s" % op[0], stats
         if e.get("grow_check") and "GROW" in res:
             toks = res.split()
-            cut = toks.index("[REFS]") if "[REFS]" in toks else len(toks)
-            nums = [int(x) for x in toks[:cut] if x.lstrip("-").isdigit()][-6:]
-            refs = [int(x) for x in toks[cut:] if x.lstrip("-").isdigit()][-6:]
+            def six_after(mark):
+                # the driver prints strings as "<len> [text]": the numbers follow the marker
+                if mark not in toks:
+                    return []
+                at = toks.index(mark)
+                return [int(x) for x in toks[at + 1:at + 7] if x.lstrip("-").isdigit()]
+            nums = six_after("[GROW]")
+            refs = six_after("[REFS]")
+            if len(nums) != 6 or len(refs) != 6:
+                return vs, "repeated-call measurement of %s is unreadable: %s" % (op[0], res[:120]), stats
             if len(refs) == 6 and refs[1] != refs[5] and (refs[5] - refs[1]) == 4 * (refs[2] - refs[1]):
                 v = {"inv": "I6.4-python-refcount-drift", "kind": "leaked" if refs[5] > refs[1] else "over-released",
                      "op_index": k, "op": op[0], "detail": {"argument_refcount_sum_after_each_of_6_calls": refs}}
@@ -481,7 +488,8 @@ def first_asan_lines(err):
     lines = err.split("\n")
     for i, l in enumerate(lines):
         if "ERROR: AddressSanitizer" in l:
-            keep = [l[:200]]
+            # pid and addresses differ from process to process: not part of the (replayable) record
+            keep = [re.sub(r"0x[0-9a-f]+", "0x..", re.sub(r"==\d+==", "====", l))[:200]]
             for x in lines[i + 1:i + 40]:
                 if re.match(r"\s+#\d+ ", x) and ("simlib" in x or "wrap" in x or "util" in x or "py" in x or "drv" in x):
                     keep.append(re.sub(r"0x[0-9a-f]+", "0x..", x.strip())[:160])
@@ -667,6 +675,19 @@ class C06Engine(object):
                 mism += 1
                 self.selftest.setdefault("mismatch_samples", []).append(
                     {"driver": spec["driver"], "ops": spec["ops"][:30], "violations": [a.get("violations"), c.get("violations")]})
+        # the oracle itself: synthetic driver output with a growing heap / drifting reference counts
+        # must be flagged, a flat one must not (a parsing slip once silenced the check)
+        def synth(grow, refs):
+            ops = [["leak_str_ref"]]
+            out = "RES 0 4 [GROW] %s 4 [REFS] %s\nLIVE 0\nHAND 0\nMEM 0 live=0 bytes=0 allocs=0 frees=0\nEV 0 \n" % (
+                " ".join(map(str, grow)), " ".join(map(str, refs)))
+            return [v["inv"] for v in judge("py", ops, M.expectations("py", ops), out, "", 0, [])[0]]
+        oracle_ok = (synth([5, 6, 7, 8, 9, 10], [3] * 6) == ["I6.4-python-heap-grows"]
+                     and synth([5, 5, 5, 5, 5, 5], [3, 4, 5, 6, 7, 8]) == ["I6.4-python-refcount-drift"]
+                     and synth([5, 6, 6, 6, 6, 6], [3] * 6) == [])
+        self.selftest["oracle_sensitivity"] = oracle_ok
+        if not oracle_ok:
+            mism += 1
         self.selftest["determinism_sequences"] = len(specs)
         self.selftest["determinism_mismatches"] = mism
         # the generator does not depend on the driver's own hash order
